@@ -67,7 +67,7 @@ def _producers(draw, cstage: int, max_producers: int):
     prods = []
     for i in range(nprod):
         taken = {(p["stage"], p["name"]) for p in prods}
-        if prods and cstage > 0 and draw(st.integers(0, 3)) == 0:
+        if prods and cstage > 0 and draw(st.integers(0, 3)) == 3:
             # the same name in another stage (one of the two in the consumer's stage when possible)
             base = draw(st.sampled_from(prods))
             others = [s for s in range(cstage + 1) if (s, base["name"]) not in taken]
@@ -168,7 +168,7 @@ def _group(draw, prods, cstage: int, out_locs: List[str], contents: dict, max_re
     orders = [first]
     if len(refs) > 1:
         orders.append(list(reversed(first)))
-    if len(refs) > 2 and draw(st.integers(0, 2)) == 0:
+    if len(refs) > 2 and draw(st.integers(0, 2)) == 2:
         o = list(draw(st.permutations(list(range(len(refs))))))
         if o not in orders:
             orders.append(o)
@@ -178,11 +178,11 @@ def _group(draw, prods, cstage: int, out_locs: List[str], contents: dict, max_re
     occ = list(draw(st.permutations(occ)))
     main = {i: ("rel" if rel_ok(refs[i]) and draw(st.integers(0, 3)) != 0 else "abs") for i in used}
     tokens = []
-    if draw(st.integers(0, 2)) == 0:
+    if draw(st.integers(0, 2)) == 2:
         tokens.append(["lit", draw(st.sampled_from(WORDS + names)) + draw(st.sampled_from(PRE_SEPS))])
     for n, i in enumerate(occ):
         sp = main[i]
-        if rel_ok(refs[i]) and draw(st.integers(0, 7)) == 0:
+        if rel_ok(refs[i]) and draw(st.integers(0, 7)) == 7:
             sp = "abs" if sp == "rel" else "rel"
         tokens.append(["ref", i, sp])
         last = n == len(occ) - 1
@@ -204,7 +204,7 @@ def _group(draw, prods, cstage: int, out_locs: List[str], contents: dict, max_re
         if text:
             tokens.append(["lit", text])
 
-    mention = draw(st.integers(0, 11)) == 0
+    mention = draw(st.integers(0, 11)) == 11
     for r in refs:
         if r["method"] != "output":
             continue
